@@ -1900,7 +1900,9 @@ class ConstraintSignature(BaseSignature):
             The hash of the signature.
         """
         return hash('<ConstraintSignature(name=%r, type=%r, attrs=%r)>'
-                    % (self.name, self.type, self._get_normalized_attrs()))
+                    % (self.name, self.type,
+                       sorted(six.iteritems(self._get_normalized_attrs()),
+                              key=lambda pair: pair[0])))
 
     def __repr__(self):
         """Return a string representation of the signature.
@@ -2147,7 +2149,11 @@ class IndexSignature(BaseSignature):
             int:
             The hash of the signature.
         """
-        return hash(repr(self))
+        return hash(
+            '<IndexSignature(name=%r, fields=%r, expressions=%r, attrs=%r)>'
+            % (self.name, self.fields, self.expressions,
+               sorted(six.iteritems(self.attrs or {}),
+                      key=lambda pair: pair[0])))
 
     def __repr__(self):
         """Return a string representation of the signature.
